@@ -161,8 +161,13 @@ func (t *tr) expr(e ast.Expr) string {
 		}
 		die(t.fset, e, "unsupported selector")
 	case *ast.UnaryExpr:
-		if x.Op == token.NOT {
+		switch x.Op {
+		case token.NOT:
 			return "(!" + t.expr(x.X) + ")"
+		case token.SUB:
+			return "(-" + t.expr(x.X) + ")"
+		case token.ADD:
+			return t.expr(x.X)
 		}
 		die(t.fset, e, "unsupported unary operator %s", x.Op)
 	case *ast.BinaryExpr:
